@@ -6,13 +6,28 @@ S->C: every behaviour of the model is executed on a real http.Server (WSGI, plai
       driven by a Tymist's virtual tyme over scripted sockets, one service() per tick; the tick at which the peer's
       socket is closed must be the model's, at three time scales.
 """
+import json
+
 from .. import core, fakesock, tcpadapt
 
 REQ = b"GET /x HTTP/1.1\r\nHost: h\r\nContent-Length: 0\r\n\r\n"
 BYTES = [b"GET /x HT", b"TP/1.1\r\nHo", b"st: h\r\nX-A: ", b"a", b"b", b"c", b"d", b"e", b"f", b"g", b"h", b"i", b"j"]
 
 
+PATTERN = [None]      # answer pattern of the application to the non persistent request of the behaviour being replayed
+
+
 def app(environ, start_response):
+    if "close" in environ.get("HTTP_CONNECTION", ""):
+        start_response('200 OK', [('Content-Type', 'text/plain')])       # no length: streamed in chunks
+
+        def body(pat):
+            if pat == ["stall"]:
+                while True:
+                    yield b""
+            for x in pat:
+                yield b"piece" if x == "p" else b""
+        return body(list(PATTERN[0]))
     start_response('200 OK', [('Content-Type', 'text/plain'), ('Content-Length', '2')])
     return [b"ok"]
 
@@ -46,8 +61,13 @@ class Rig:
         self.nbytes = 0
 
     def tick(self, ev):
+        ev, arg = ev[0], (ev[1] if len(ev) > 1 else None)
         if not self.f.closed:
-            if ev == "bytes":
+            if ev == "reqclose":
+                PATTERN[0] = list(arg or [])
+                self.f.inbox.extend(self.finish(close=True) if self.nbytes else
+                                    b"GET /c HTTP/1.1\r\nHost: h\r\nConnection: close\r\n\r\n")
+            elif ev == "bytes":
                 self.f.inbox.extend(BYTES[self.nbytes % len(BYTES)])
                 self.nbytes += 1
             elif ev == "request":
@@ -59,7 +79,7 @@ class Rig:
         self.tymist.tick(tock=self.q)
         return st
 
-    def finish(self):
+    def finish(self, close=False):
         """bytes that complete the request begun by the BYTES pieces sent so far (a header value or a header line)"""
         sent = b"".join(BYTES[:min(self.nbytes, len(BYTES))])
         whole = b"GET /x HTTP/1.1\r\nHost: h\r\nX-A: "
@@ -68,7 +88,7 @@ class Rig:
         else:
             rest = b""
         self.nbytes = 0
-        return rest + b"z\r\nContent-Length: 0\r\n\r\n"
+        return rest + b"z\r\n" + (b"Connection: close\r\n" if close else b"") + b"Content-Length: 0\r\n\r\n"
 
 
 def replay(flavour, T, q, h):
@@ -83,8 +103,10 @@ def replay(flavour, T, q, h):
             except Exception as ex:
                 return "service() raised %s: %s at tick %d" % (type(ex).__name__, ex, k)
             want = "closed" if e["state"] == "closed" else "open"
+            if e["state"] == "ended" and T == 0:
+                want = st
             if st != want:
-                evs = [x["ev"] for x in h[:k + 1]]
+                evs = [x["ev"][0] if len(x["ev"]) == 1 else tuple(x["ev"]) for x in h[:k + 1]]
                 return "tymeout %s, client activity per tick %s: connection is %s after the service at tyme %s, should be %s" % (
                     T * q, evs, st, k * q, want)
     finally:
@@ -94,20 +116,22 @@ def replay(flavour, T, q, h):
 
 def run(ctx):
     props = ["ClosedOnlyIfIdle", "IdleGetsClosed", "TrafficKeepsOpen", "PersistentStays"]
-    maxt = 7 if ctx.quick else 9
+    maxt = 8 if ctx.quick else 10
     scales = [1.0, 0.25, 3.0]
+    gen = {"MCIdle.tla": open(core.SPECS + "/http/MCIdle.tla").read()}
     for T in (1, 2, 3):
-        r = ctx.tlc("http", "Idle", core.cfg_text(constants={"T": T, "MaxTyme": maxt + 2}, properties=props))
+        r = ctx.tlc("http", "MCIdle", core.cfg_text(constants={"T": T, "MaxTyme": maxt + 2, "Pats": "<-MCPats"}, properties=props), gen=gen)
         for v in r.violated:
             ctx.violation("the model violates %s" % v, {"tlc": r.out[-4000:]})
-        hs = ctx.tlc("http", "IdleGen", core.cfg_text(constants={"T": T, "MaxTyme": maxt}, constraints=["Dump"]),
-                     workers=1).tagged_json("BH")
-        if len(hs) < 500:
+        hs = ctx.tlc("http", "MCIdle", core.cfg_text(constants={"T": T, "MaxTyme": maxt, "Pats": "<-MCPats"}, constraints=["Dump"]),
+                     workers=1, gen=gen).tagged_json("BH")
+        if len(hs) < 20:
             raise core.MachineryError("behaviour dump too small: %d" % len(hs))
         for i, h in enumerate(hs):
-            for flavour in ("wsgi", "wsgi-tls", "bare"):
+            streaming = any(e["ev"][0] == "reqclose" for e in h)
+            for flavour in (("wsgi", "wsgi-tls") if streaming else ("wsgi", "wsgi-tls", "bare")):     # BareServer has no streaming application
                 q = scales[i % len(scales)]
-                ctx.case((flavour, T, tuple(e["ev"] for e in h)),
+                ctx.case((flavour, T, json.dumps([e["ev"] for e in h])),
                          {"server": flavour, "tymeout": T, "activity": [e["ev"] for e in h], "states": [e["state"] for e in h]}
                          if i == 100 and flavour == "wsgi" else None)
                 bad = replay(flavour, T, q, h)
